@@ -60,16 +60,33 @@ def _hook(name, args):
         return
     _inhook[0] = True
     try:
-        if name == 'compile':
-            # the one expected event: ast.parse() inside parse_expression (it is how the parser works)
+        # attribute the event: it counts when it is raised on behalf of tally's code. Walking outwards from the event, a frame of the interpreter's
+        # own error-reporting machinery (traceback / linecache: "Exception ignored in ..." printing reads and parses source lines) or of the harness
+        # reached BEFORE any tally frame means the event is not tally's doing.
+        try:
             f = sys._getframe(1)
-            depth = 0
-            while f is not None and depth < 8:
-                if f.f_code.co_name == 'parse' and f.f_code.co_filename.endswith('ast.py'):
-                    return
-                f = f.f_back
-                depth += 1
-        _events.append((name, repr(args)[:120]))
+        except (ValueError, RecursionError):
+            return
+        depth = 0
+        mine = False
+        while f is not None and depth < 60:
+            fn = f.f_code.co_filename
+            if name == 'compile' and depth < 8 and f.f_code.co_name == 'parse' and fn.endswith('ast.py') and f.f_back is not None and \
+                    f.f_back.f_code.co_filename.replace('\\', '/').endswith('tally/expr_parser.py'):
+                return  # the one expected event: ast.parse() inside parse_expression (it is how the parser works)
+            if fn.endswith(('/traceback.py', '/linecache.py', '/warnings.py', '/tokenize.py')) or '/hypothesis/' in fn or fn.endswith(('/tv/harness.py',)):
+                return
+            if '/tally/' in fn.replace('\\', '/'):
+                mine = True
+                break
+            if fn.endswith('/tv/props/C03.py'):
+                break
+            f = f.f_back
+            depth += 1
+        if mine or depth >= 60:
+            _events.append((name, repr(args)[:120]))
+    except RecursionError:
+        return
     finally:
         _inhook[0] = False
 
@@ -487,7 +504,7 @@ def replay(case):
 
 
 def shards(tier):
-    n = 250 if tier == 'quick' else 20000
+    n = 250 if tier == 'quick' else 10000
     return [(f'matrix:{i}:10', 0) for i in range(10)] + [(f'functions:{i}:2', 0) for i in range(2)] + [('nodes', 0), ('payloads', 0)] + [('generated', n)] * (4 if tier == 'quick' else 16)
 
 
